@@ -1068,3 +1068,116 @@ Proof.
   - rewrite Hp, (enf_rel o s sv Hh Hr _ ps c Hg), Ew. left.
     destruct (tfail_cases s ps (v_root (sv_view sv))) as [E|E]; rewrite E; reflexivity.
 Qed.
+
+(* ---- WriteFile of a new name ------------------------------------------------------------------------------------------ *)
+Lemma twalk_children_ext h h' : (forall d, children h' d = children h d) -> forall cs d, twalk h' d cs = twalk h d cs.
+Proof.
+  intros He cs. induction cs as [|x r IH]; intros d; cbn [twalk]; [reflexivity|]. rewrite He.
+  destruct (alookup str_eqb x (children h d)); [apply IH|reflexivity].
+Qed.
+
+Lemma orel_set_data (o : ofs) (s : fsys) (sv : sview) (i : nat) (x : onode) (d d' : list N) (k : Z) (id : N) (m : meta) :
+  orel o s sv -> get (f_heap s) i = Some (NFile d k id m) -> oget (o_heap o) i = Some x ->
+  orel (o_with_heap o (oupd (o_heap o) i (on_with_data x d'))) (with_heap s (upd (f_heap s) i (NFile d' k id m))) sv.
+Proof.
+  intros Hr Hg Ho. pose proof (or_node _ _ _ Hr i) as Hn. rewrite Ho, Hg in Hn. cbn [nrel] in Hn.
+  destruct Hn as (y & Ey & Hd & Hc & Hk & Hm & _). inversion Ey; subst y.
+  assert (Hilt : i < length (f_heap s)) by (eapply get_lt; exact Hg).
+  assert (Hch : forall e, children (upd (f_heap s) i (NFile d' k id m)) e = children (f_heap s) e).
+  { intros e. rewrite children_upd. destruct (Nat.eqb_spec e i) as [->|_]; [|reflexivity].
+    destruct (Nat.ltb_spec i (length (f_heap s))); [|lia]. cbn [node_children]. rewrite children_get, Hg. reflexivity. }
+  constructor; cbn [o_with_heap o_with o_os o_user o_umask o_index o_heap with_heap f_heap].
+  - apply (or_os _ _ _ Hr).
+  - apply (or_user _ _ _ Hr).
+  - apply (or_umask _ _ _ Hr).
+  - apply (or_slash _ _ _ Hr).
+  - intros cs Hcs. rewrite (twalk_children_ext _ _ Hch). apply (or_index _ _ _ Hr cs Hcs).
+  - rewrite oupd_length, upd_length. apply (or_len _ _ _ Hr).
+  - intros j. rewrite (oget_oupd _ _ _ _ _ Ho), get_upd. destruct (Nat.eqb_spec i j) as [<-|Hij].
+    + rewrite Nat.eqb_refl. destruct (Nat.ltb_spec i (length (f_heap s))); [|lia]. cbn [nrel].
+      eexists. split; [reflexivity|]. unfold on_dir in *. cbn [on_with_data on_meta on_ch on_nlink on_data]. auto 7.
+    + destruct (Nat.eqb_spec j i); [congruence|]. apply (or_node _ _ _ Hr j).
+Qed.
+
+Lemma file_mode_not_dir perm um : has (N.lor 0 (N.ldiff (N.land perm FILE_MODE_MASK) um)) MODE_DIR = false.
+Proof.
+  rewrite has_mode_dir_testbit, N.lor_0_l, N.ldiff_spec, N.land_spec.
+  assert (E : N.testbit FILE_MODE_MASK 31 = false) by (vm_compute; reflexivity). rewrite E, andb_false_r. reflexivity.
+Qed.
+
+Theorem orefa_step_write_file_new (o : ofs) (s : fsys) (sv : sview) (ps : list str) (c : str) (data : list N) (perm : N) :
+  ohyps s sv -> orel o s sv -> gcs (ps ++ [c]) -> length (ps ++ [c]) < WALK_FUEL ->
+  twalk (f_heap s) (v_root (sv_view sv)) (ps ++ [c]) = None ->
+  proj_res Linux (snd (o_write_file o (abs_path (ps ++ [c])) data perm)) = snd (go_write_file s sv (abs_path (ps ++ [c])) data perm)
+  /\ orel (fst (o_write_file o (abs_path (ps ++ [c])) data perm)) (fst (go_write_file s sv (abs_path (ps ++ [c])) data perm)) sv.
+Proof.
+  intros Hh Hr Hg Hl Hnew. pose proof Hg as Hg'. apply gcs_snoc_inv in Hg'. destruct Hg' as [Hps Hc].
+  pose proof (oh_admin _ _ Hh) as Hadm.
+  unfold o_write_file, go_write_file, o_open_file, k_open.
+  change (to_open_mode (O_WRONLY + O_CREATE + O_TRUNC)) with 82%N.
+  change (decode_flags (O_WRONLY + O_CREATE + O_TRUNC)) with (OF 1 true false true false). cbv iota beta zeta.
+  change (has 82 OpenCreate) with true. change (has 82 OpenCreateExcl) with false. cbn [negb].
+  rewrite (oabs_abs o s sv Hr _ Hg), (or_os _ _ _ Hr).
+  rewrite (klookup_par s sv Hh false ps c Hg Hl), (tpar_spec (f_heap s) ps (v_root (sv_view sv)) c).
+  rewrite (klookup_down s sv Hh true ps c Hg Hl), (tdown_spec (f_heap s) ps (v_root (sv_view sv)) c).
+  rewrite (@abs_path_rpath (ps ++ [c])) by (destruct ps; discriminate).
+  rewrite (split_abs_rpath ps c) by (apply comp_ok_nosl; apply good_comp_ok'; exact Hc).
+  destruct (resolve4 o s sv Hh Hr ps c Hg) as [p px i x Ew Hp Hnp Hd El Hx Hnx|p px Ew Hp Hnp Hd El Hx|p px Ew Hp Hnp Hd Hx|Ew Hp Hx].
+  - exfalso. rewrite twalk_snoc, Ew, El in Hnew. discriminate.
+  - rewrite Hx, Ew, Hp, Hd, El, (nrel_dir s sv Hh px p Hnp), Hd. cbn [negb].
+    rewrite (kperm_dir_admin (f_heap s) _ Hadm p 3 Hd). cbn [negb].
+    unfold o_create_file, o_create_node, alloc_child.
+    pose proof Hp as Hp'. apply ofind_some in Hp'. destruct Hp' as [Hip Hop]. rewrite Hop.
+    rewrite (nrel_meta s sv Hh px p Hnp), (or_os _ _ _ Hr), (or_umask _ _ _ Hr), (or_user _ _ _ Hr). cbn [file_mode].
+    rewrite file_mode_not_dir, andb_false_r.
+    set (km := kmeta (f_heap s) p (sv_view sv) 0 (N.land perm FILE_MODE_MASK) false).
+    set (nf := NFile [] 1 (f_last_id s + 1) km).
+    set (nd_o := {| on_ch := []; on_data := []; on_nlink := 1; on_id := (o_last_id o + 1)%N;
+                    on_meta := {| m_mode := N.lor 0 (N.ldiff (N.land perm FILE_MODE_MASK) (v_umask (sv_view sv)));
+                                  m_uid := us_uid (v_user (sv_view sv));
+                                  m_gid := if has (m_mode (meta_of (f_heap s) p)) MODE_SETGID
+                                           then m_gid (meta_of (f_heap s) p) else us_gid (v_user (sv_view sv)) |} |}).
+    set (o1 := {| o_index := aset str_eqb (rpath (ps ++ [c])) (length (o_heap o)) (o_index o);
+                  o_heap := o_add_child (o_heap o ++ [nd_o]) p c (length (o_heap o));
+                  o_last_id := (o_last_id o + 1)%N; o_cwd := o_cwd o; o_user := v_user (sv_view sv); o_umask := v_umask (sv_view sv); o_os := Linux |}).
+    set (s1 := {| f_heap := add_child (f_heap s ++ [nf]) p c (length (f_heap s)); f_last_id := (f_last_id s + 1)%N; f_vols := f_vols s |}).
+    assert (Hmeta : on_meta nd_o = km).
+    { unfold nd_o, km, kmeta, new_owner_gid, is_setgid. cbn [on_meta andb]. reflexivity. }
+    assert (Hnn : nrel (Some nd_o) (Some nf)).
+    { unfold nf. cbn [nrel]. exists nd_o. split; [reflexivity|]. unfold on_dir. rewrite Hmeta.
+      split; [unfold km, kmeta; cbn [m_mode andb]; apply file_mode_not_dir|]. auto 6. }
+    assert (Hr1 : orel o1 s1 sv).
+    { eapply (orel_create o o1 s s1 sv ps c p px nd_o nf); try eassumption; try reflexivity;
+        cbn [o1 o_os o_user o_umask]; symmetry; [apply (or_os _ _ _ Hr)|apply (or_user _ _ _ Hr)|apply (or_umask _ _ _ Hr)]. }
+    assert (Hplt : p < length (f_heap s)). { rewrite node_is_dir_get in Hd. destruct (get (f_heap s) p) eqn:E; [|discriminate]. eapply get_lt; eauto. }
+    assert (Hg1 : get (f_heap s1) (length (f_heap s)) = Some nf).
+    { unfold s1. cbn [f_heap]. unfold add_child. rewrite get_app_old by exact Hplt.
+      destruct (get (f_heap s) p) as [[chp mp|? ? ? ?|? ?]|] eqn:Egp; try (rewrite node_is_dir_get, Egp in Hd; discriminate).
+      rewrite get_upd. destruct (Nat.eqb_spec (length (f_heap s)) p); [lia|]. apply get_app_new. }
+    assert (Ho1 : oget (o_heap o1) (length (o_heap o)) = Some nd_o).
+    { unfold o1. cbn [o_heap]. unfold o_add_child. rewrite (oget_app_some _ nd_o _ _ Hop).
+      rewrite oget_oupd_neq by (rewrite (or_len _ _ _ Hr); lia). apply oget_app_new. }
+    fold s1. rewrite Hg1. unfold nf. cbv iota.
+    unfold of_write, o_prologue. cbn [new_handle hd_name hd_node hd_mode hd_at].
+    destruct (rpath (ps ++ [c])) as [|k0 kr] eqn:Ek; [exfalso; revert Ek; apply rpath_snoc_not_nil|]. rewrite <- Ek in *.
+    fold o1. rewrite Ho1.
+    assert (Hndd : on_dir nd_o = false) by (unfold on_dir; rewrite Hmeta; unfold km, kmeta; cbn [m_mode andb]; apply file_mode_not_dir).
+    rewrite Hndd. change (has 82 OpenWrite) with true. change (has 82 OpenAppend) with false. cbn [negb orb].
+    unfold drop_privs. rewrite Hadm.
+    destruct data as [|b0 data'].
+    + cbn [snd fst]. split; [reflexivity|].
+      assert (Hsame : upd (f_heap s1) (length (f_heap s)) (NFile [] 1 (f_last_id s + 1) km) = f_heap s1).
+      { clear -Hg1. unfold nf in Hg1. revert Hg1. generalize (f_heap s1) (length (f_heap s)).
+        intros hh n. revert n. induction hh as [|a hh IH]; intros [|n] Hg; cbn [upd get nth_error] in *; try discriminate.
+        - inversion Hg. reflexivity.
+        - f_equal. apply IH. exact Hg. }
+      rewrite Hsame. exact Hr1.
+    + cbn [snd fst]. split; [reflexivity|].
+      cbn [Z.to_nat]. unfold write_at_data. cbn [length Nat.ltb Nat.leb firstn app skipn on_data].
+      rewrite (or_len _ _ _ Hr) in Ho1 |- *. change (on_data nd_o) with (@nil N). rewrite skipn_nil, app_nil_r.
+      apply (orel_set_data o1 s1 sv (length (f_heap s)) nd_o [] (b0 :: data') 1 (f_last_id s + 1) km Hr1 Hg1 Ho1).
+  - rewrite Hx, Ew, Hp, Hd, (nrel_dir s sv Hh px p Hnp), Hd. cbn [negb snd fst]. split; [reflexivity|exact Hr].
+  - rewrite Hx, Ew, Hp. cbn [snd fst]. split; [|exact Hr].
+    rewrite (enf_rel o s sv Hh Hr _ ps c Hg), Ew.
+    destruct (tfail_cases s ps (v_root (sv_view sv))) as [E|E]; rewrite E; reflexivity.
+Qed.
